@@ -19,11 +19,15 @@ pub struct Gen {
     pub in_loop: usize,
     /// partial names may come from the `pname` variable (only safe where recursion is impossible)
     pub dynamic_names: bool,
+    /// turn increment/decrement into assignments (metamorphic C08 streams: counters are shared on purpose)
+    pub no_counters: bool,
+    /// only constructs that cannot fail: variables are read under `{% if v %}`, ranges are literal
+    pub guarded: bool,
 }
 
 impl Gen {
     pub fn new(seed: u64) -> Self {
-        Gen { rng: Rng::new(seed), partials: vec![], allow_partials: false, allow_errors: true, in_loop: 0, dynamic_names: false }
+        Gen { rng: Rng::new(seed), partials: vec![], allow_partials: false, allow_errors: true, in_loop: 0, dynamic_names: false, no_counters: false, guarded: false }
     }
 
     pub fn name(&mut self) -> String {
@@ -87,7 +91,7 @@ impl Gen {
 
     /// an expression that always evaluates (no missing variable): literal or `arr`
     pub fn safe_expr(&mut self) -> Expr {
-        if self.rng.chance(1, 2) {
+        if self.guarded || self.rng.chance(1, 2) {
             Expr::Lit(self.scalar())
         } else {
             var("arr")
@@ -103,6 +107,9 @@ impl Gen {
     }
 
     pub fn cond(&mut self) -> Cond {
+        if self.guarded {
+            return if self.rng.chance(1, 2) { Cond::Exist(var(&self.name())) } else { Cond::Bin(Expr::Lit(self.scalar()), *self.rng.pick(&[CmpOp::Eq, CmpOp::Ne]), Expr::Lit(self.scalar())) };
+        }
         match self.rng.below(5) {
             0 | 1 => Cond::Exist(self.expr()),
             2 => Cond::Bin(self.e(), *self.rng.pick(&[CmpOp::Eq, CmpOp::Ne, CmpOp::Lt, CmpOp::Ge]), self.e()),
@@ -131,8 +138,13 @@ impl Gen {
         let k = self.rng.below(if leaf { 9 } else { 20 });
         match k {
             0 | 1 => text(*self.rng.pick(&["t", " ", "-", "é", "\n", "<"])),
+            2 | 3 if self.guarded && self.rng.chance(2, 3) => {
+                let n = self.name();
+                Node::Cond { c: Cond::Exist(var(&n)), mode: true, thn: vec![out(var(&n))], els: None, elsif: false }
+            }
             2 | 3 => out(self.e()),
             4 => Node::Assign(self.name(), self.e(), vec![]),
+            5 | 6 if self.no_counters => Node::Assign(self.name(), self.e(), vec![]),
             5 => Node::Incr(self.name()),
             6 => Node::Decr(self.name()),
             7 => {
@@ -145,7 +157,7 @@ impl Gen {
             8 => Node::Raw("{{ raw }}".into()),
             9 | 10 => {
                 let x = self.name();
-                let rng = match self.rng.below(4) {
+                let rng = match if self.guarded { 0 } else { self.rng.below(4) } {
                     0 => RangeE::Counted(lit_i(1), lit_i(self.rng.range(0, 3))),
                     1 => RangeE::Arr(var("arr")),
                     _ => RangeE::Arr(self.e()),
@@ -180,7 +192,7 @@ impl Gen {
             },
             16 => Node::TableRow {
                 x: self.name(),
-                rng: RangeE::Arr(var("arr")),
+                rng: if self.guarded { RangeE::Counted(lit_i(1), lit_i(self.rng.range(0, 3))) } else { RangeE::Arr(var("arr")) },
                 cols: if self.rng.chance(1, 2) { Some(lit_i(self.rng.range(1, 3))) } else { None },
                 limit: None,
                 offset: None,
@@ -196,7 +208,7 @@ impl Gen {
                 } else {
                     let form = match self.rng.below(4) {
                         0 => RForm::With(self.safe_expr(), self.name()),
-                        1 => RForm::For(RangeE::Arr(var("arr")), self.name()),
+                        1 => RForm::For(if self.guarded { RangeE::Counted(lit_i(1), lit_i(self.rng.range(0, 3))) } else { RangeE::Arr(var("arr")) }, self.name()),
                         _ => RForm::Plain,
                     };
                     Node::Render(name, form, args)
